@@ -298,6 +298,7 @@ func clientMessageConsts(c *Ctx) map[string]byte {
 
 func runC06(c *Ctx) {
 	R := c.R
+	defer c.startResetsFrame("C06.S1")
 	R.Technique = "trace automaton per dispatch arm (handleCommand specialised on each ClientMessage constant), default caches resolved through the cache interfaces, error-origin classification"
 	R.Explanation = "For every ClientMessage constant, handleCommand is explored with the message type bound to that constant; on every path the event sequence (cache operations, callbacks, backend messages) must match the designated reply of that message from the protocol flow (Parse: parser, cache Set, ParseComplete; Bind: Get, Bind, BindComplete; Describe: Get, [ParameterDescription], RowDescription|NoData; Execute: portal execution, statement; Close: CloseComplete; Flush/Copy*: nothing; Sync: ReadyForQuery), " +
 		"a failing step must be followed by exactly one ErrorResponse and nothing else, ReadyForQuery may only be sent by Sync, a non-nil error that is not a transport/malformed-message error may not be returned without an ErrorResponse (silent drop), and a nil return requires the complete designated reply (no silence). Replies leave at Writer.End without buffering (C02.R1), i.e. without waiting for further input. " +
